@@ -78,3 +78,9 @@ def curved_chord_band(case, fail):
         return False
     from . import curved as C
     return C.chord_band(case)
+
+
+@cls("graph_cubic")
+def graph_cubic(case, fail):
+    """F26: `C(t) in segment` misses points of some steep CUBIC graphs (quadratic graphs are complete)"""
+    return case.get("k") == "graph" and len(case.get("seg", ())) == 4 and "in segment` is not True" in str(fail.get("what"))
